@@ -38,7 +38,8 @@ func roleName(r message.Role) string {
 
 // a message of the encodable domain whose protected form fits
 func (g *Gen) protMsg() *Sx {
-	for {
+	for tries := 0; ; {
+		retryCap(&tries, "payload chain encodes")
 		s := g.msg()
 		m := buildMsg(s)
 		if b, err := m.Payloads.Encode(); err == nil && len(b) < 65000 {
@@ -60,6 +61,10 @@ func protect(sa *security.IKESAKey, m *message.IKEMessage, role message.Role, rn
 	return
 }
 
+// how a receiver that "pre-parsed the header" may have obtained it (rotating): ParseHeader on the datagram, ParseHeader
+// on its first 28 octets only, or a header value holding the parsed fields without the payload octets
+var hdrVariantCtr int
+
 // unprotect; withHdr: header pre-parsed from the same bytes
 func unprotect(sa *security.IKESAKey, b []byte, role message.Role, withHdr bool) callRes {
 	in := exact(b)
@@ -68,7 +73,19 @@ func unprotect(sa *security.IKESAKey, b []byte, role message.Role, withHdr bool)
 		var h *message.IKEHeader
 		if withHdr {
 			var err error
-			h, err = message.ParseHeader(in)
+			hdrVariantCtr++
+			switch hdrVariantCtr % 3 {
+			case 0:
+				h, err = message.ParseHeader(in)
+			case 1:
+				h, err = message.ParseHeader(exact(in[:28]))
+			default:
+				var p *message.IKEHeader
+				if p, err = message.ParseHeader(in); err == nil {
+					h = &message.IKEHeader{InitiatorSPI: p.InitiatorSPI, ResponderSPI: p.ResponderSPI, NextPayload: p.NextPayload, MajorVersion: p.MajorVersion,
+						MinorVersion: p.MinorVersion, ExchangeType: p.ExchangeType, Flags: p.Flags, MessageID: p.MessageID}
+				}
+			}
 			if err != nil {
 				return "", err
 			}
@@ -314,9 +331,80 @@ func propC02(c *Ctx) {
 			}
 		}
 	}
+	c.c02Rekeyed(g)
 	sc := c.suite("unprotect-model-vs-impl", "correspondence",
 		"sample of the altered datagrams: Go DecodeDecrypt outcome must equal the Lean model's unprotect outcome; non-trivial as above")
 	c.correspond(sc, corr)
+}
+
+// SA objects that obtained their keys the way the library provides (GenerateKeyForIKESA), some of them twice: an object
+// re-keyed in place holds the NEW keys and nothing of the old ones
+func (c *Ctx) c02Rekeyed(g *Gen) {
+	s := c.suite("objects-keyed-by-the-library", "oracle",
+		"per suite and role: an IKESAKey keyed by GenerateKeyForIKESA (inputs A), and one keyed with inputs A and then re-keyed in place with inputs B: a message protected under the reference keys of the object's current inputs must be accepted, messages under any other key set (the former inputs A, unrelated keys) and the reflected message must be refused, what the object protects must be accepted by a reference-keyed peer; non-trivial = every case; distinct by (suite, inputs)")
+	for _, st := range allSuites() {
+		for rep := 0; rep < c.n(2, 30); rep++ {
+			a, b := g.kdInputs(rep%3), g.kdInputs(3+rep%3)
+			for len(a.nonce) == 0 || len(a.secret) == 0 || len(b.nonce) == 0 || len(b.secret) == 0 {
+				a, b = g.kdInputs(0), g.kdInputs(4)
+			}
+			for variant := 0; variant < 2; variant++ {
+				obj := kdBlankSA(st, rep%2)
+				cur := a
+				text := fmt.Sprintf("keyed-by-library suite=%s %s", st.String(), kdIkeLine("ikekeys", st, a.nonce, a.secret, a.spiI, a.spiR))
+				if r := kdDerive(obj, a.nonce, a.secret, a.spiI, a.spiR); r.kind != "ok" {
+					continue // C07 owns the derivation itself
+				}
+				if variant == 1 {
+					if r := kdDerive(obj, b.nonce, b.secret, b.spiI, b.spiR); r.kind != "ok" {
+						continue
+					}
+					cur = b
+					text += " then re-keyed " + kdIkeLine("ikekeys", st, b.nonce, b.secret, b.spiI, b.spiR)
+				}
+				kCur := kdRefIkeKeys(st, cur.nonce, cur.secret, cur.spiI, cur.spiR)
+				kOld := kdRefIkeKeys(st, a.nonce, a.secret, a.spiI, a.spiR)
+				setCase(text)
+				for _, sender := range []message.Role{message.Role_Initiator, message.Role_Responder} {
+					s.add(text+" "+roleName(sender), true, "suite:"+st.String(), fmt.Sprintf("rekeyed:%v", variant == 1))
+					sx := g.smallMsg()
+					want := "ok " + renderMsg(buildMsg(sx)).String()
+					bad := func(class, desc, exp, act string) {
+						c.violate(Violation{Suite: s.Name, Kind: "property", Class: class, Desc: desc + " (replay: re-run of the suite with this seed)", Input: "", Expected: clip(exp), Actual: clip(text + " -> " + act)})
+					}
+					good, _ := protect(newSA(kCur), buildMsg(sx), sender, g.keyBytesRandom(32), -1)
+					if good.kind != "ok" {
+						continue
+					}
+					if r := unprotect(obj, unhx(good.val), !sender, variant == 1); r.String() != want {
+						bad("library-keyed-object-rejects-genuine", "a message protected under the keys RFC 7296 prescribes for the object's inputs is not accepted by the object", want, r.String())
+						continue
+					}
+					if r := unprotect(obj, unhx(good.val), sender, false); r.kind != "err" {
+						bad("accepted:reflect", "the object accepts a message in the role that produced it", "err", r.String())
+					}
+					if variant == 1 {
+						old, _ := protect(newSA(kOld), buildMsg(sx), sender, g.keyBytesRandom(32), -1)
+						if r := unprotect(obj, unhx(old.val), !sender, false); old.kind == "ok" && r.kind != "err" {
+							bad("accepted:former-keys", "an object re-keyed in place still accepts a message protected under its FORMER keys", "err", r.String())
+						}
+					}
+					un, _ := protect(newSA(g.saKeysUnrelated(kCur)), buildMsg(sx), sender, g.keyBytesRandom(32), -1)
+					if r := unprotect(obj, unhx(un.val), !sender, false); un.kind == "ok" && r.kind != "err" {
+						bad("accepted:crosskey", "the object accepts a message protected under unrelated keys", "err", r.String())
+					}
+					own, _ := protect(obj, buildMsg(sx), sender, g.keyBytesRandom(32), -1)
+					if own.kind != "ok" {
+						bad("library-keyed-object-protect-fails", "EncodeEncrypt fails on the object", "ok", own.String())
+						continue
+					}
+					if r := unprotect(newSA(kCur), unhx(own.val), !sender, true); r.String() != want {
+						bad("library-keyed-object-output-rejected", "what the object protects is not accepted by a holder of the keys RFC 7296 prescribes for its inputs", want, r.String())
+					}
+				}
+			}
+		}
+	}
 }
 
 func (c *Ctx) c02Check(s *SuiteStat, k *saKeys, sa *security.IKESAKey, si, sr *spyCrypto, role message.Role, genuine, alt []byte, what string, idx int, nontr bool, corr *[]corrCase, sample bool) {
@@ -713,7 +801,8 @@ func (g *Gen) displacedSK(k *saKeys, sender message.Role) []byte {
 	var body []byte
 	switch g.r.Intn(4) {
 	case 0:
-		for body == nil {
+		for tries := 0; body == nil; {
+			retryCap(&tries, "EncodeEncrypt of a small message")
 			if p, _ := protect(newSA(k), buildMsg(g.smallMsg()), sender, g.keyBytesRandom(32), -1); p.kind == "ok" {
 				body = unhx(p.val)[32:]
 			}
